@@ -316,6 +316,20 @@ def check_fifo(eng, run):
     first_if = next((s for s in acq.node.body if isinstance(s, ast.If)), None)
     facts["no-barging"] = first_if is not None and _queues_when_held_or_waited(first_if)
     facts["release-unlocked-raises"] = any(isinstance(n, ast.Raise) for n in own_nodes(rel.node))
+    # a waiter stays queued until it runs again and removes *itself*: while a woken waiter is still in the queue a newcomer queues
+    # behind it; a release() that dequeues the waiter it wakes leaves the lock free *and* the queue empty for one scheduling step -
+    # whoever calls acquire() in that window takes the fast path and the lock has two owners
+    shrinkers = []
+    for m in acq.cls.methods.values():
+        if isinstance(m.node, ast.Lambda):
+            continue
+        for c in own_nodes(m.node):
+            if isinstance(c, ast.Call) and isinstance(c.func, ast.Attribute) and (dotted(c.func.value) or "").endswith("._waiters") and c.func.attr in ("popleft", "pop", "clear", "remove"):
+                if not (m is acq and c.func.attr == "remove"):
+                    shrinkers.append((m, c))
+            if isinstance(c, ast.Delete) and any("_waiters" in ast.unparse(t) for t in c.targets):
+                shrinkers.append((m, c))
+    facts["waiters-dequeue-themselves-only"] = not shrinkers
     for k, v in facts.items():
         if not v:
             run.finding("C12.fifo", acq if k not in ("wake-head",) else wake, (acq if k != "wake-head" else wake).node, f"FairLock lost its first-come-first-served shape: {k}")
@@ -385,6 +399,8 @@ def run(eng, run):
     from rules import c11, c18
     run.attempt(c18.check_distinct_primitives, eng, RuleAlias(run, "C12.held"))  # the send lock and the receive lock are two locks
     run.attempt(c11.check_infinite_wait_error, eng, RuleAlias(run, "C12.span"), "C12.span")  # a blocked sender is not failed mid-packet by the retry wake-up
+    from rules import c08 as _c08d
+    run.attempt(_c08d.check_drain, eng, RuleAlias(run, "C12.tls"))  # concurrent senders: whoever queued data flushes it itself - nobody returns while its bytes sit in the backlog
     run.end_of_rules()
 
 
